@@ -41,6 +41,10 @@ import experimaestro.taskglobals as xtaskglobals  # noqa: E402
 import experimaestro.commandline as xcmd  # noqa: E402
 import experimaestro.server  # noqa: E402,F401  (lazy import inside experiment.__init__: pay for it once)
 import experimaestro.launchers.direct  # noqa: E402,F401
+import experimaestro.tools.jobs  # noqa: E402,F401  (no module may be imported for the first time inside a run)
+import experimaestro.cli  # noqa: E402,F401
+import experimaestro.cli.jobs  # noqa: E402,F401
+import experimaestro.cli.filter  # noqa: E402,F401
 from experimaestro.scheduler.workspace import Workspace  # noqa: E402
 
 from .kernel import (  # noqa: E402
@@ -245,6 +249,9 @@ def body(task):
     W.bodies_running.pop(proc.pid, None)
     k.log("body-end", x=x, outcome=outcome)
     if outcome == "ok":
+        if W.cfg.get("results"):
+            # job data: one result file in the job directory (the task's cwd)
+            (Path(proc.cwd) / "result.txt").write_text("result of task %d (attempt %d)\n" % (x, att))
         return
     if outcome == "exc":
         raise RuntimeError("simulated task failure")
@@ -688,6 +695,7 @@ class World:
         self.ident = {}        # x -> identifier
         self.on_spawn = []
         self.on_kill = []
+        self.jobdir_variant = {}
         self.on_body_start = []
         self.state_listeners = []
         self.jobx = {}         # id(job) -> x
